@@ -290,6 +290,16 @@ async function build (tier) {
       leaves.push({ fam: 'refseq', key: `refseq:${names.join('+')}:${l.pick.chain}:${l.pick.comments}`, code: 'function f(a, b) {\n  return a + b\n}' + tail + '\n', file: '/p/app.js', config: Object.assign({}, C.FULL, { chainSourceMap: l.pick.chain, comments: l.pick.comments }), vfs: { '*': READER_ANSWERS.valid } })
     }
   }
+  // (iii-d) a multi-byte character at every byte offset of the reference's text (any fixed-size truncation or
+  // slicing of the comment must respect character boundaries)
+  {
+    const maxK = thorough ? 1100 : 270
+    for (let k = 0; k < maxK; k++) for (const ch of ['ñ', '€', '😀']) for (const tail of ['.map', '€€€€.map']) {
+      if (!thorough && tail !== '.map' && k % 4) continue
+      stats.states++; stats.transitions++
+      leaves.push({ fam: 'urlbmp', key: `urlbmp:${k}:${ch}:${tail}`, code: 'function f(a, b) {\n  return a + b\n}\n//# sourceMappingURL=' + 'm'.repeat(k) + ch + tail + '\n', file: '/p/app.js', config: Object.assign({}, C.FULL, { chainSourceMap: k % 2 === 0, comments: k % 3 === 0 }), vfs: { '*': READER_ANSWERS.notfound } })
+    }
+  }
   // (iv) configurations
   {
     const cfgs = weirdConfigs()
@@ -364,7 +374,7 @@ module.exports = {
   requests,
   check,
   timeoutMs: 30000,
-  rule: 'leaves = every token string of length<=L over a 14-token alphabet (raw and inside a function body), every character string of length <= 3 (4) over 42 lexer-steering characters (raw; the shorter ones also inside a function body), every single-token del/dup/substitution/prefix of 40 seed programs, every program of the generated families H/Q/R/N/L, every grammar schema plain and with 1-3 (6) extra pairs of parentheses around operands / assignment target / whole operation, the full product file-name x map-reference x reader-answer x chain x comments x parent-mode, every sequence of <= 4 (5) trailing references/comments/code items x chain x comments, 2^6 option-presence patterns x verbosity spellings + malformed configs, and every byte offset 0..255 of a multi-byte character in leading text; every leaf is one real rewrite call, all are non-trivial (each is a distinct input tuple; distinctness by hash of (code,file,config,vfs,parent-mode))',
+  rule: 'leaves = every token string of length<=L over a 14-token alphabet (raw and inside a function body), every character string of length <= 3 (4) over 42 lexer-steering characters (raw; the shorter ones also inside a function body), every single-token del/dup/substitution/prefix of 40 seed programs, every program of the generated families H/Q/R/N/L, every grammar schema plain and with 1-3 (6) extra pairs of parentheses around operands / assignment target / whole operation, the full product file-name x map-reference x reader-answer x chain x comments x parent-mode, every sequence of <= 4 (5) trailing references/comments/code items x chain x comments, 2^6 option-presence patterns x verbosity spellings + malformed configs, every byte offset 0..255 of a multi-byte character in leading text, every byte offset 0..269 (1099) of a multi-byte character in the text of the map reference; every leaf is one real rewrite call, all are non-trivial (each is a distinct input tuple; distinctness by hash of (code,file,config,vfs,parent-mode))',
   explanation: 'explicit enumeration of the input/fault space executed against the real rewriter (Rust sources of the working tree) under catch_unwind + watchdog; oracle = call returns Ok or Err(non-empty message)',
   assumptions: ['native build of the rewriter (serde_json instead of serde-wasm-bindgen; in-memory FileReader with both the trait-default and a Node-dirname `parent`)', 'pathological nesting depth excluded by the property statement; no deep-nesting inputs are generated', 'watchdog 30 s per call']
 }
